@@ -191,6 +191,7 @@ theorem pipeStep_exit_stable {p : Nat} {P P' : Pipe} (hs : PipeStep p P P') (h :
   | cCtx a b => exact ⟨h, rfl⟩
   | cCancel a => exact ⟨h, rfl⟩
   | pCancel a => exact ⟨h, rfl⟩
+  | rTrunc u a b c => rcases c with c | ⟨c | c, _⟩ <;> rw [h] at c <;> contradiction
 
 theorem run_exit_stable {s t : State} {sched : List Action} {p : Nat} (hr : run s sched = some t)
     (h : (s.pipe p).rpc = .exit) : (t.pipe p).rpc = .exit ∧ (t.pipe p).linesRead = (s.pipe p).linesRead := by
